@@ -580,6 +580,17 @@ CaseResult run_case(const Case &c, volatile uint64_t *progress) {
             res.extra["alt." + label]++;
             th = mix(th, rr.trace_hash);
             BudgetState &bs = budget_state();
+            if (bs.soft && !bs.tripped) {
+                // the load went over its budget, the counts the file claims explain it, and it finished under the enlarged budget
+                Violation v; v.prop = "C16"; v.key = std::string("C16/budget/") + bs.soft_kind + "/" + bs.soft_site; v.step = static_cast<int>(a);
+                v.detail = std::string("load of a damaged ") + tos(img.size()) + "-byte file exceeded its " + bs.soft_kind + " budget in " + bs.soft_site +
+                           " (explained by the " + tos(bs.claimed_values) + " values its header claims)";
+                bool seen = false;
+                for (auto &o : res.viol) if (o.key == v.key) seen = true;
+                if (!seen) { res.viol.push_back(v); if (res.failing_alt < 0) res.failing_alt = static_cast<int>(a); }
+                res.extra["budget.explained-by-claimed-counts"]++;
+                bs.soft = false;
+            }
             if (bs.tripped) {
                 Violation v; v.prop = "C16"; v.key = std::string("C16/budget/") + bs.kind + "/" + bs.site; v.step = static_cast<int>(a);
                 v.detail = std::string("load of a damaged ") + tos(img.size()) + "-byte file exceeded its " + bs.kind + " budget in " + bs.site;
